@@ -52,7 +52,7 @@ func selfTestSeeded(id, verif, repo string, r *Report) {
 	r.rule(id+".selftest", 0, "every seeded mutant this check is recorded to catch is still caught (checker validation on a scratch copy)")
 	results := make([]selfTestResult, len(todo))
 	var wg sync.WaitGroup
-	sem := make(chan struct{}, 6)
+	sem := make(chan struct{}, 12)
 	for i, m := range todo {
 		wg.Add(1)
 		go func(i int, m seededMeta) {
@@ -152,7 +152,7 @@ func selfTestBenign(id, verif, repo string, r *Report) {
 	r.rule(id+".benign", 0, "the check raises no alarm on any behaviour-preserving edit of the benign corpus (checker validation on a scratch copy)")
 	results := make([]selfTestResult, len(dirs))
 	var wg sync.WaitGroup
-	sem := make(chan struct{}, 6)
+	sem := make(chan struct{}, 12)
 	for i, d := range dirs {
 		wg.Add(1)
 		go func(i int, d string) {
